@@ -65,3 +65,5 @@ Definition rans_eqb (a b : rans) : bool :=
 Definition rcheck (c : state * list (rqry * rans)) : bool :=
   forallb (fun qe => rans_eqb (run_rq (fst c) (fst qe)) (snd qe)) (snd c).
 Definition ranswers (c : state * list (rqry * rans)) : list rans := map (fun qe => run_rq (fst c) (fst qe)) (snd c).
+(* the same universe rendered in several phases of one history (edits in between): every phase is judged on its own heap *)
+Definition rcheck_phases (cs : list (state * list (rqry * rans))) : bool := forallb rcheck cs.
